@@ -58,11 +58,14 @@ TOpsCall ==
                 /\ Ev.grad = GradSeq(M, grad')
   /\ Ev.lap_eq = (lap' = BuildLap(M, linkQ', BuildFixed))
   /\ Ev.grad_eq = (grad' = BuildGrad(M, linkQ'))
+  \* generated mesh: the held matrices against a reference assembled by the harness from the raw site coordinates
+  /\ ~T.exact => Ev.ref_eq = (lap' = BuildLap(M, linkQ', BuildFixed) /\ grad' = BuildGrad(M, linkQ'))
   /\ OpsObs(lap', grad')
 
 (* ---- level "step": the real solver ---- *)
 TCtor == /\ IsEv("ctor") /\ Ctor
          /\ Ev.fresh = (linkQ' = QOfPot(M, 0, 0) /\ HeldEqualsBuild(lap', grad', QOfPot(M, 0, 0)))
+         /\ Ev.ref = HeldEqualsBuild(lap', grad', QOfPot(M, 0, 0))    \* vs. the harness's reference operator (raw coordinates)
          /\ OpsObs(lap', grad')
          /\ Ev.term = tv'
 
@@ -72,10 +75,12 @@ TLinks == /\ IsEv("links")
           /\ \/ TrigRefresh /\ Ev.arg_applied
              \/ Links /\ Ev.arg_total
           /\ Ev.eq = HeldEqualsBuild(lap', grad', linkQ')
+          /\ Ev.ref = HeldEqualsBuild(lap', grad', linkQ')
           /\ OpsObs(lap', grad')
 
 TEuler == /\ IsEv("euler") /\ Euler(Ev.retried)
           /\ Ev.fresh = (linkQ = LatestQ /\ HeldEqualsBuild(lap, grad, LatestQ))
+          /\ Ev.ref = HeldEqualsBuild(lap, grad, LatestQ)
           /\ OpsObs(lap, grad)
           /\ Ev.term = tv'
           /\ Ev.stepfresh = stepFresh'      \* the step recomputed with freshly built operators gives the same psi
